@@ -1398,7 +1398,15 @@ static int ex_exec(char *ln)
 /* execute a single ex command */
 int ex_command(char *ln)
 {
-	int ret = ex_exec(ln);
+	static int dep;		/* nesting of @, ra, so, ... */
+	int ret = 1;
+	if (dep < 32) {
+		dep++;
+		ret = ex_exec(ln);
+		dep--;
+	} else {
+		ex_show("command nesting too deep");
+	}
 	lbuf_modified(xb);
 	return ret;
 }
